@@ -175,9 +175,14 @@ class Side:
 class C01(Prop):
     id = 'C01'
     lean_modules = ['RSocketModel.Props.C01']
-    claimed = False    # until the composition theorem lands
     technique = 'Lean 4 proof (composition of the codec, fragmentation, parser and send-queue theorems; per-stream independence of the fragment cache) + full-stack differential run'
-    level_text = 'see DESIGN.md §5 C01'
+    level_text = ('PARTIAL (composition). Kernel-checked: c01_pipeline — for every schedule of application sends and sender passes that drains the queue, every fragment size >= the minimum, every mix of streams, '
+                  'what the receiver-side reassembly delivers per stream is exactly the frames handed to the library for that stream: each once, in order, content and flags intact, nothing from another stream '
+                  '(composes C03 fragmentation/reassembly, C05 send-queue order, and deliver_proj: the fragment cache treats interleaved streams independently); c01_transport — with a round-tripping codec any chunking of the '
+                  'length-prefixed byte stream parses to the same frames (instance of C04); c01_end_to_end — both together; c01_drainable (the drain hypothesis is satisfiable for every input); '
+                  'c01_response_reaches_its_requester and c01_dispatch_by_stream_id on the engine model. The codec enters c01_end_to_end as the hypothesis parse(enc f) = [f], which C02 proves on the byte-level frame type; '
+                  'the bridge between the two frame records, handler dispatch above reassembly, and timing are covered by the correspondence run only: a real client and a real server joined by a simulated link, '
+                  'all five interaction models from both sides, payloads of 0 bytes to several fragments, both framings, harness-chosen delivery order and read chunking.')
     level_note = 'Trusted: as C02–C05 and C07; that asyncio runs the sender/receiver tasks in one of the modelled orders is covered by the full-stack run only.'
     design_ref = '§5 C01'
     rule = ('3..12 concurrent interactions of the five models started by either side, payload sizes 0..4 fragments (data and metadata), fragment size none/64/100, message and byte-stream framing '
